@@ -2,6 +2,7 @@ package mon
 
 import (
 	"fmt"
+	stackage "github.com/JesseCoretta/go-stackage"
 	"strings"
 
 	"verifharness/core"
@@ -159,6 +160,19 @@ func c01Run(c *core.Ctx, idx int) {
 	var ops []LOp
 	start := 0
 	exhaustive := idx < exh
+	if !exhaustive {
+		// look-alikes among the values: distinct pointers to equal data (the list holds THE value it was given, not one
+		// that merely compares equal to it); compared by identity
+		plain := next
+		next = func() any {
+			if r.Chance(1, 8) {
+				p := new(int)
+				*p = 5
+				return p
+			}
+			return plain()
+		}
+	}
 	if exhaustive {
 		start = idx % 4
 		for _, sym := range c01Decode(idx/4, maxLen) {
@@ -166,6 +180,15 @@ func c01Run(c *core.Ctx, idx int) {
 		}
 	}
 	s, m := cfg.Build()
+	// a second, unrelated stack that is worked on in between (random histories only): a stack's content is a function of
+	// ITS OWN operations
+	var by stackage.Stack
+	var bm *ListModel
+	if !exhaustive && r.Chance(1, 2) {
+		bcfg := randListCfg(r)
+		by, bm = bcfg.Build()
+		c.Count("histories.with-bystander-stack")
+	}
 	var log []string
 	kinds := map[string]bool{}
 	maxL := 0
@@ -191,6 +214,27 @@ func c01Run(c *core.Ctx, idx int) {
 		if a, d := ObserveList(s, m); a != "" {
 			fail(op, a, d)
 			return false
+		}
+		if bm != nil && r.Chance(1, 2) {
+			bop := randListOp(r, bm.Len(), bm.Fifo, next).Resolve(bm.Len())
+			if !((bop.K == "Replace" || bop.K == "Swap") && (bop.I < 0 || bop.I >= bm.Len() || (bop.K == "Swap" && (bop.J < 0 || bop.J >= bm.Len())))) {
+				if bop.K == "Remove" && bop.I < 0 && bm.Len() == 0 {
+					bop.I = 0
+				}
+				if a, d := ApplyLOp(by, bm, bop); a != "" {
+					fail(bop, "bystander:"+a, d)
+					return false
+				}
+				if a, d := ObserveList(by, bm); a != "" {
+					fail(bop, "bystander:"+a, d)
+					return false
+				}
+				if a, d := ObserveList(s, m); a != "" {
+					c.Violate("other-stack:"+bop.K+":"+a, fmt.Sprintf("after %s on ANOTHER stack, this one [%s] changed: %s", bop, cfg, d), map[string]any{"cfg": cfg, "ops": log, "other_op": bop.String()})
+					return false
+				}
+				c.Count("bystander-ops")
+			}
 		}
 		if m.Len() > maxL {
 			maxL = m.Len()
